@@ -518,6 +518,34 @@ func run1(c Case) (res Result) {
 			return
 		}
 	}
+	// A GET /events client that stops reading while the node produces more events than the subscription buffers (1024):
+	// the node disconnects the subscriber; the handler must end cleanly (no panic) and the node keep answering.
+	if !c.Held {
+		ctx, cancel := context.WithTimeout(context.Background(), 20*time.Second)
+		req, _ := http.NewRequestWithContext(ctx, "GET", targetURL+"/events", nil)
+		resp, err := client.Do(req)
+		if err != nil {
+			viol("C20/no-response/GET/events-backlog", "GET /events got no response: %v", err)
+		} else {
+			buf := make([]byte, 16)
+			_, _ = resp.Body.Read(buf) // the stream has started
+			for i := 0; i < litefs.EventChannelBufferSize+40; i++ {
+				target.Store.NotifyEvent(litefs.Event{Type: litefs.EventTypeTx, DB: "db", Data: litefs.TxEventData{}})
+			}
+			time.Sleep(50 * time.Millisecond)
+			_, _ = io.Copy(io.Discard, io.LimitReader(resp.Body, 4<<20)) // now read whatever was sent until the server ends the stream
+			resp.Body.Close()
+		}
+		cancel()
+		time.Sleep(50 * time.Millisecond)
+		if logs := lb.take(); panicRe.MatchString(logs) {
+			viol("C20/panic-in-log/GET/events-backlog", "a GET /events client that fell more than %d events behind made the server log a panic:\n%s", litefs.EventChannelBufferSize, tail(logs, 900))
+		}
+		if !infoOK() {
+			viol("C20/wedged/GET/events-backlog", "after the lagging GET /events client the node no longer answers GET /info")
+		}
+		res.Requests++
+	}
 	return res
 }
 
